@@ -363,9 +363,12 @@ class PauliStringPhasorGate(raw_types.Gate):
     def _decompose_(self, qubits: Sequence[cirq.Qid]) -> Iterator[cirq.OP_TREE]:
         if len(self.dense_pauli_string) <= 0:
             return
-        any_qubit = qubits[0]
+        # Only the qubits the Pauli string acts on non-trivially take part in the parity computation;
+        # `qubits` may also list qubits on which the string is the identity.
+        acted_on = [q for q, p in zip(qubits, self.dense_pauli_string.pauli_mask) if p] or list(qubits)
+        any_qubit = acted_on[0]
         to_z_ops = op_tree.freeze_op_tree(self._to_z_basis_ops(qubits))
-        xor_decomp = tuple(xor_nonlocal_decompose(qubits, any_qubit))
+        xor_decomp = tuple(xor_nonlocal_decompose(acted_on, any_qubit))
         yield to_z_ops
         yield xor_decomp
 
